@@ -253,4 +253,17 @@ Proof.
   exists wi, ri, wj, rj. repeat split; auto. now rewrite Ai, Aj.
 Qed.
 
+(* ... and in two different histories (any other order, any other company, any other starting world) *)
+Corollary same_answer_in_any_history cfg hs hs' w w' i j en req h :
+  nth_error hs i = Some (en, req, h) -> nth_error hs' j = Some (en, req, h) ->
+  exists wi ri wj rj, nth_error (fst (serve_all cfg hs w)) i = Some (wi, ri) /\
+                      nth_error (fst (serve_all cfg hs' w')) j = Some (wj, rj) /\
+                      answer_in wi ri = answer_in wj rj.
+Proof.
+  intros Hi Hj.
+  destruct (history_independent cfg hs w i en req h Hi) as (wi & ri & Ni & Ai).
+  destruct (history_independent cfg hs' w' j en req h Hj) as (wj & rj & Nj & Aj).
+  exists wi, ri, wj, rj. repeat split; auto. now rewrite Ai, Aj.
+Qed.
+
 End WithOracles.
